@@ -703,6 +703,13 @@ func (k *c17) RunCase(c *core.Ctx, i int) {
 			c.Inconclusive(i, "timeout: "+knutCmd(c, nil, argsT...))
 			continue
 		}
+		if (rt.Class == "ok") != (rc.Class == "ok") && rt.Class != "timeout" && rc.Class != "timeout" {
+			// the two renderers are given the same report: one of them producing a table
+			// and the other failing is a difference between the renderings
+			c.Violation(core.Witness{Case: i, Key: "one-rendering-fails", Why: fmt.Sprintf("the text rendering ends with class %s, the CSV rendering of the same report with class %s: %s%s", rt.Class, rc.Class, firstLine(string(rt.Stderr)), firstLine(string(rc.Stderr))),
+				Files: map[string][]byte{"j.knut": []byte(text)}, Cmd: knutCmd(c, envT, argsT...) + "\n" + knutCmd(c, nil, argsC...)})
+			return
+		}
 		if rt.Class != "ok" || rc.Class != "ok" {
 			// missing prices, empty windows: other properties judge failures
 			c.NotJudged(1)
